@@ -69,25 +69,37 @@ def make_module(rnd, c):
         f.byte_order = bo
         st.fields.append(f)
     m.types.append(st)
-    # scalars directly in a struct
-    sc = M.Struct("struct", "Bar")
+    # scalars directly in a struct.  The byte order reaches a field explicitly or through
+    # $default at module / struct level (a later struct relies on the module default while
+    # an earlier one overrides it), so attribute defaulting is part of what is decoded.
+    m.default_byte_order = rnd.choice([None, "LittleEndian", "BigEndian"])
     pos = rnd.randrange(0, 8)
-    for i in range(10):
-        nbytes = rnd.choice([1, 2, 3, 4, 5, 6, 7, 8])
-        kind = rnd.choice(["UInt", "Int", "Bcd", "Float", "eu", "es"])
-        if kind == "Float":
-            nbytes = rnd.choice([4, 8])
-        if kind in ("eu", "es"):
-            t = M.Type("enum", nbytes * 8, name="Eu" if kind == "eu" else "Es")
-            t.target = eu if kind == "eu" else es
-        else:
-            t = M.Type(kind, nbytes * 8, explicit=rnd.random() < 0.3)
-        f = M.Field("s%s%d_%d" % (kind[:1].lower(), nbytes, i), ("n", pos), ("n", nbytes), t)
-        f.byte_order = rnd.choice(["LittleEndian", "BigEndian"]) if nbytes > 1 else rnd.choice(["LittleEndian", "BigEndian", "Null"])
-        sc.fields.append(f)
-        pos += rnd.choice([0, nbytes, nbytes, 1])  # overlaps allowed
-    sc.bar_len = max(f.start[1] + f.size[1] for f in sc.fields)
-    m.types.append(sc)
+    for sname, nfields in (("Bar", 10), ("Baz", 6)):
+        sc = M.Struct("struct", sname)
+        if sname == "Bar":
+            sc.default_byte_order = rnd.choice([None, None, "LittleEndian", "BigEndian"])
+            if m.default_byte_order and sc.default_byte_order and rnd.random() < 0.7:
+                sc.default_byte_order = "BigEndian" if m.default_byte_order == "LittleEndian" else "LittleEndian"
+        inherited = sc.default_byte_order or m.default_byte_order
+        for i in range(nfields):
+            nbytes = rnd.choice([1, 2, 3, 4, 5, 6, 7, 8])
+            kind = rnd.choice(["UInt", "Int", "Bcd", "Float", "eu", "es"])
+            if kind == "Float":
+                nbytes = rnd.choice([4, 8])
+            if kind in ("eu", "es"):
+                t = M.Type("enum", nbytes * 8, name="Eu" if kind == "eu" else "Es")
+                t.target = eu if kind == "eu" else es
+            else:
+                t = M.Type(kind, nbytes * 8, explicit=rnd.random() < 0.3)
+            f = M.Field("s%s%d_%d" % (kind[:1].lower(), nbytes, i), ("n", pos), ("n", nbytes), t)
+            f.byte_order = rnd.choice(["LittleEndian", "BigEndian"]) if nbytes > 1 else rnd.choice(["LittleEndian", "BigEndian", "Null"])
+            if inherited and (f.byte_order == inherited or rnd.random() < 0.5) and f.byte_order != "Null":
+                f.byte_order = None  # take the inherited default
+            sc.fields.append(f)
+            pos += rnd.choice([0, nbytes, nbytes, 1])  # overlaps allowed
+        sc.bar_len = max(f.start[1] + f.size[1] for f in sc.fields)
+        m.types.append(sc)
+        pos = rnd.randrange(0, 4)
     for t in m.types:
         semgen.set_parents(t, None)
     return m, configs
